@@ -108,4 +108,68 @@ theorem ntop6_run (ws : List Nat) (h8 : ws.length = 8) :
       · exact absurd he h3
       · exact h3
 
+/-! ## the text fits `tmp` -/
+
+theorem hex4_len (w : Nat) : (hex4 w).length ≤ 4 := by
+  unfold hex4; repeat' split
+  all_goals simp
+
+theorem dec3_len (b : Nat) : (dec3 b).length ≤ 3 := by
+  unfold dec3; repeat' split
+  all_goals simp
+
+theorem joinHex_len (ws : List Nat) : (joinHex ws).length ≤ 5 * ws.length := by
+  induction ws with
+  | nil => simp [joinHex]
+  | cons w ws ih =>
+    cases ws with
+    | nil => have := hex4_len w; simp [joinHex]; omega
+    | cons v vs =>
+      have := hex4_len w
+      simp only [joinHex, List.length_append, List.length_cons, List.length_nil] at ih ⊢
+      omega
+
+theorem colonHex_len (ws : List Nat) : (colonHex ws).length ≤ 5 * ws.length := by
+  induction ws with
+  | nil => simp [colonHex]
+  | cons w ws ih =>
+    have := hex4_len w
+    simp only [colonHex, List.flatMap_cons, List.length_append, List.length_cons] at ih ⊢
+    omega
+
+theorem ntop4Text_len (a : Bytes) : (ntop4Text a).length ≤ 15 := by
+  unfold ntop4Text
+  have h0 := dec3_len (a.getD 0 0)
+  have h1 := dec3_len (a.getD 1 0)
+  have h2 := dec3_len (a.getD 2 0)
+  have h3 := dec3_len (a.getD 3 0)
+  simp only [List.length_append, List.length_cons, List.length_nil]
+  omega
+
+/-- the text built by `inet_ntop6` always fits its 46-byte `tmp` buffer (the `return NULL`
+    paths without errno are unreachable) -/
+theorem ntop6Text_len (a : Bytes) : (ntop6Text a).length ≤ 45 := by
+  unfold ntop6Text
+  simp only
+  have h8 : (words6 a).length = 8 := by simp [words6]
+  cases hb : bestRun (words6 a) with
+  | none =>
+    simp only
+    have := joinHex_len (words6 a); omega
+  | some r =>
+    obtain ⟨b, l⟩ := r
+    simp only
+    split
+    · have := ntop4Text_len (a.drop 12)
+      have h4 := hex4_len 0xffff
+      simp only [List.length_append, List.length_cons, List.length_nil]
+      split <;> simp <;> omega
+    · have h1 := joinHex_len ((words6 a).take b)
+      have h2 := colonHex_len ((words6 a).drop (b + l))
+      have h3 : ((words6 a).take b).length ≤ b := by simp; omega
+      have h4 : ((words6 a).drop (b + l)).length = 8 - (b + l) := by simp [h8]
+      have h5 : ((words6 a).take b).length ≤ 8 := by simp [h8]; omega
+      simp only [List.length_append, List.length_cons, List.length_nil]
+      split <;> simp <;> omega
+
 end UsualProofs.C14
